@@ -16,7 +16,8 @@ vars == <<l, bad>>
 Init == l = 1 /\ bad = ""
 
 Rep(b, n) == [i \in 1..n |-> b]
-ToCall(c) == [op |-> c.op, v |-> IF c.op \in {"int", "dbl"} THEN c.v ELSE Rep(c.rep[1], c.rep[2])]
+\* payloads are run-length encoded (rep = <<byte, len>>) or, for short literal ones, spelled out (lit)
+ToCall(c) == [op |-> c.op, v |-> IF c.op \in {"int", "dbl"} THEN c.v ELSE IF c.rep[2] = 0 THEN c.lit ELSE Rep(c.rep[1], c.rep[2])]
 Calls(ev) == [i \in 1..Len(ev.calls) |-> ToCall(ev.calls[i])]
 Min2(a, b) == IF a < b THEN a ELSE b
 \* the recorder's checksum of the stored bytes
